@@ -47,26 +47,98 @@ theorem plain_chunkTrees {M : NsMap} {tr : Val → Tree} {var : XmlVar} {x : Val
 
 /-- the constructor argument of an element field -/
 theorem elem_field_okN {ci : ClassInfo} {fields : List (Str × Val)} {var : XmlVar}
-    (hfa : fieldAgrees ci var = true) (hnd : (ci.fields.map (·.name)).Nodup) {f : FieldInfo}
+    (hfa : fieldAgreesN ci var = true) (hnd : (ci.fields.map (·.name)).Nodup) {f : FieldInfo}
     (hf : f ∈ ci.fields) (hname : var.name = f.name) {P : Params} {ys : List Val}
     (hP : P.get var.name = finalParam var ys)
     (hparam : finalParam var ys = some (look fields var.name) ∨
       (finalParam var ys = none ∧ ((look fields var.name = .none ∧ fdNone ci var.name = true) ∨
-        (look fields var.name = .list [] ∧ var.default = .listFactory)))) :
-    f.init = true ∧ (P.get f.name = some (look fields f.name) ∨
-      (P.get f.name = none ∧ f.default = some (look fields f.name))) := by
-  obtain ⟨hfind, hi, hd⟩ := field_of_var hfa hnd hf hname
-  refine ⟨hi, ?_⟩
-  rw [← hname, hP]
+        (look fields var.name = .list [] ∧ var.default = .listFactory) ∨
+        (var.init = false ∧ ∃ p, look fields var.name = .prim p ∧ var.default = .val p)))) :
+    FieldOK P fields f := by
+  obtain ⟨hfind, hi, hd⟩ := field_of_varN hfa hnd hf hname
+  have hsome : ∀ y, finalParam var ys = some y → var.init = true := by
+    intro y hy
+    cases hvi : var.init with
+    | true => rfl
+    | false => simp [finalParam, hvi] at hy
   rcases hparam with h | ⟨h, hx⟩
-  · exact Or.inl h
-  · refine Or.inr ⟨h, ?_⟩
-    rcases hx with ⟨hx, hfd⟩ | ⟨hx, hdef⟩
+  · exact Or.inl ⟨by rw [hi, hsome _ h], Or.inl (by rw [← hname, hP]; exact h)⟩
+  · rcases hx with ⟨hx, hfd⟩ | ⟨hx, hdef⟩ | ⟨hvi, p, hx, hdef⟩
     · obtain ⟨f', hf', hdn⟩ := fdNone_iff.1 hfd
       rw [hfind] at hf'; cases hf'
-      rw [hx, hdn]
+      cases hfi : f.init with
+      | true => exact Or.inl ⟨hfi, Or.inr ⟨by rw [← hname, hP]; exact h, by rw [← hname, hx, hdn]⟩⟩
+      | false => exact Or.inr ⟨hfi, by rw [← hname, hx, hdn]⟩
     · rw [hdef] at hd
-      rw [hx, defaultAgrees_list hd]
+      cases hfi : f.init with
+      | true =>
+        exact Or.inl ⟨hfi, Or.inr ⟨by rw [← hname, hP]; exact h, by rw [← hname, hx, defaultAgrees_list hd]⟩⟩
+      | false => exact Or.inr ⟨hfi, by rw [← hname, hx, defaultAgrees_list hd]⟩
+    · rw [hdef] at hd
+      exact Or.inr ⟨by rw [hi, hvi], by rw [← hname, hx, defaultAgrees_val hd]⟩
+
+/-- the keys of all attribute events of an element are distinct -/
+theorem attrPairsN_nodup {e : BEnv} {Γ : Ctx} {m : XmlMeta} {fields : List (Str × Val)} (cfg : SerCfg) :
+    ∀ (vars : List XmlVar), (∀ var ∈ vars, AttrFactsN e Γ m fields var) → (vars.map (·.qname)).Nodup →
+    ((attrPairsN cfg vars fields).map (·.1)).Nodup := by
+  intro vars
+  induction vars with
+  | nil => intro _ _; simp [attrPairsN]
+  | cons v t ih =>
+    intro h hnd
+    simp only [List.map_cons, List.nodup_cons] at hnd
+    have hcons : attrPairsN cfg (v :: t) fields =
+        (attrTriples cfg fields v).map (fun t => (t.1, t.2.2)) ++ attrPairsN cfg t fields := by
+      simp [attrPairsN]
+    rw [hcons, List.map_append, List.nodup_append]
+    have iht := ih (fun var hv => h var (by simp [hv])) hnd.2
+    -- a key of the rest: declared qname of a var of `t`, or an entry of a map var of `t`
+    have hrest : ∀ k ∈ (attrPairsN cfg t fields).map (·.1),
+        (∃ w ∈ t, AttrA e Γ m fields w ∧ k = w.qname) ∨
+        (∃ w ∈ t, AttrM Γ m fields w ∧ ∃ s, (k, s) ∈ mapEntries fields w) := by
+      intro k hk
+      rw [attrPairsN_eq] at hk
+      simp only [List.map_map, List.mem_map, Function.comp] at hk
+      obtain ⟨tr, htr, rfl⟩ := hk
+      rcases mem_allTriples (fun var hv => h var (by simp [hv])) htr with
+        ⟨w, hw, hf, hq, _⟩ | ⟨w, hw, hf, hkw, _⟩
+      · exact Or.inl ⟨w, hw, hf, hq⟩
+      · exact Or.inr ⟨w, hw, hf, _, hkw⟩
+    refine ⟨?_, iht, ?_⟩
+    · cases h v (by simp) with
+      | attr ha =>
+        simp only [attrTriples, isAttributes_false_of_attr ha.isAttr, Bool.false_eq_true, if_false]
+        cases attrOfN cfg fields v <;> simp
+      | amap hm =>
+        simp only [attrTriples, hm.isMap, if_true, List.map_map]
+        have : (mapEntries fields v).map ((fun x : QN × Str => x.1) ∘ (fun t : QN × Data × Str => (t.1, t.2.2)) ∘
+            fun kw => (kw.1, Data.prim (.str kw.2), kw.2)) = (mapEntries fields v).map (·.1) := by
+          apply List.map_congr_left; intro kw _; rfl
+        rw [this]; exact hm.nodup
+    · intro a ha b hb heq
+      subst heq
+      cases h v (by simp) with
+      | attr hav =>
+        simp only [attrTriples, isAttributes_false_of_attr hav.isAttr, Bool.false_eq_true, if_false,
+          List.map_map, List.mem_map, Function.comp, Option.mem_toList, Option.map_eq_some_iff] at ha
+        obtain ⟨tr, ⟨ds, _, rfl⟩, rfl⟩ := ha
+        rcases hrest _ hb with ⟨w, hw, _, hq⟩ | ⟨w, hw, hf, s', hkw⟩
+        · exact hnd.1 (List.mem_map.2 ⟨w, hw, hq.symm⟩)
+        · have := (hf.entries _ hkw).2.1
+          simp only at this
+          rw [hav.find] at this; cases this
+      | amap hmv =>
+        simp only [attrTriples, hmv.isMap, if_true, List.map_map, List.mem_map, Function.comp] at ha
+        obtain ⟨kw, hkw, rfl⟩ := ha
+        rcases hrest _ hb with ⟨w, hw, hf, hq⟩ | ⟨w, hw, hf, _, _⟩
+        · have := (hmv.entries _ hkw).2.1
+          rw [hq, hf.find] at this; cases this
+        · -- only one `Attributes` var
+          have h1 := hmv.any
+          rw [hf.any] at h1
+          have : w = v := by simpa using h1
+          subst this
+          exact hnd.1 (List.mem_map.2 ⟨w, hw, rfl⟩)
 
 theorem genField_textN (e : BEnv) (Γ : Ctx) (cfg : SerCfg) (f : Nat) (ns : Option Str) {tv : XmlVar}
     (hmixed : tv.mixed = false) (htext : tv.isText = true) (hwrap : tv.wrapperQName = none)
@@ -94,8 +166,9 @@ theorem main_stepN (ft : Feat) (e : BEnv) (Γ : Ctx) (cfg : SerCfg) (pcfg : Pars
     have hAF : ∀ var ∈ mp.attributeVars, AttrFactsN e Γ mp fields var :=
       fun var hv => attrFactsN_of (MF.attrs var hv) (hattrs var hv) hnames
     have hAkeys := attrPairsN_keys cfg mp.attributeVars hAF
-    have hAW := fun nil => attrsW_all M cfg nil hAF MF.attrNodup
-    have hBindA := fun nil => bindAttrs_N pcfg cfg mp fields M nil hAF hAnames MF.noNilAttr MF.anyAttrs
+    have hAW := fun nil => attrsW_all M cfg nil hAF (attrPairsN_nodup cfg _ hAF MF.attrNodup)
+    have hBindA := fun nil (hany : nil = true → mp.anyAttributes = []) =>
+      bindAttrs_N pcfg cfg mp fields M nil hAF hAnames MF.noNilAttr hany
     -- the generator up to the element content
     have hnilG : mg.nillable = mp.nillable := by
       show (dropQ mg).nillable = (dropQ mp).nillable
@@ -109,13 +182,29 @@ theorem main_stepN (ft : Feat) (e : BEnv) (Γ : Ctx) (cfg : SerCfg) (pcfg : Pars
     rw [genObj_unfoldN e Γ cfg f cls fields pnsG oq mg nl hmg, hq, hGA, hNV,
       treeNN_obj Γ cfg M n pnsP nl q cls fields hmp]
     have hfactoryA : ∀ (P : Params), (∀ var ∈ mp.attributeVars,
-          P.get var.name = (attrOfN cfg fields var).map (fun _ => look fields var.name)) →
-        ∀ fi ∈ ci.fields, ∀ var ∈ mp.attributeVars, var.name = fi.name →
-        fi.init = true ∧ (P.get fi.name = some (look fields fi.name) ∨
-          (P.get fi.name = none ∧ fi.default = some (look fields fi.name))) :=
+          P.get var.name = (attrParamOf cfg fields var).map (·.2)) →
+        ∀ fi ∈ ci.fields, ∀ var ∈ mp.attributeVars, var.name = fi.name → FieldOK P fields fi :=
       fun P hP fi hfi var hv hname =>
         attr_field_okN cfg (MF.attrs var hv) (hattrs var hv) MF.fieldNodup hfi hname (hP var hv)
     have hclazz : mp.clazz = cls := by rw [MF.clazz]; exact find_id hfind
+    -- without content the element may be `xsi:nil`: then the class is nillable and has no map
+    have hneed : needContent nl mp = false → (nl || mp.nillable) = true →
+        mp.nillable = true ∧ mp.anyAttributes = [] := by
+      intro hn hN
+      simp only [needContent, Bool.or_eq_false_iff, Bool.and_eq_false_iff, Bool.not_eq_false',
+        Bool.not_eq_eq_eq_not, Bool.not_true, Bool.or_eq_true] at hn hN
+      obtain ⟨h1, h2⟩ := hn
+      constructor
+      · rcases hN with h | h
+        · rcases h1 with h1 | h1
+          · rw [h] at h1; cases h1
+          · exact h1
+        · exact h
+      · rcases h2 with h2 | h2
+        · rcases hN with h | h
+          · rw [h] at h2; simp at h2
+          · rw [h] at h2; simp at h2
+        · simpa using h2
     have hPA := attrParamsN_get cfg fields mp.attributeVars hAnames
     cases htext : mp.text with
     | some tv =>
@@ -126,255 +215,339 @@ theorem main_stepN (ft : Feat) (e : BEnv) (Γ : Ctx) (cfg : SerCfg) (pcfg : Pars
         simpa [htext] using MF.body
       simp only [FN.textVarOK, FN.varBase, Bool.and_eq_true, Bool.not_eq_true',
         Option.isNone_iff_eq_none] at hTV
-      obtain ⟨⟨⟨⟨⟨⟨hisText, hbase⟩, hnillable⟩, hwrap⟩, hseq⟩, hkind⟩, hfa⟩ := hTV
-      have hinit : tv.init = true := hbase.1.1.1.1.1.1.1.1
+      obtain ⟨⟨⟨⟨⟨⟨⟨hisText, hbase⟩, hnillable⟩, hwrap⟩, hseq⟩, hkind⟩, hfix⟩, hfaN⟩ := hTV
       have hmixed : tv.mixed = false := hbase.1.1.1.1.1.1.1.2
-      obtain ⟨f0, hf0, _, _⟩ := fieldAgrees_iff.1 hfa
-      have hin : tv.name ∈ fields.map (·.1) := by rw [hnames]; exact mem_names_of_find hf0
-      have htvE : tv ∈ mp.elementVars := by rw [hEV]; simp
-      have hNVe : nextValue mp fields = .ok (emitOfN tv (look fields tv.name)) := by
-        rw [nextValue_N mp fields (fun var hv => by
-          rw [hEV] at hv; simp only [List.mem_singleton] at hv; subst hv
-          exact ⟨hseq, hin⟩), hEV]
-        simp
-      have hK : parseKids e Γ pcfg mp {} none [] =
-          .ok (⟨([] : List (XmlVar × Val)).map (fun en => (some en.1.qname, en.2)), 0⟩, {}) := by
-        simp [parseKids]
-      have hWs0 : WsOK ({} : ElState).wrappers [] := trivial
-      have htvA : tv.name ∉ mp.attributeVars.map (·.name) := by
-        intro hmem
-        obtain ⟨a, ha, han⟩ := List.mem_map.1 hmem
-        exact hAE a ha tv htvE han
-      have hPAtv := attrParamsN_get_none cfg fields mp.attributeVars htvA
-      -- the constructor call, for any final params
-      have hFgen : ∀ PT : Params,
-          (∀ var ∈ mp.attributeVars,
-            PT.get var.name = (attrOfN cfg fields var).map (fun _ => look fields var.name)) →
-          (PT.get tv.name = some (look fields tv.name) ∨
-            (PT.get tv.name = none ∧ f0.default = some (look fields tv.name))) →
-          classFactory Γ mp.clazz PT = .ok (.obj cls fields) := by
-        intro PT hA hT
-        rw [hclazz]
-        apply classFactory_F1 Γ hfind fields _ hnames MF.fieldNodup
-        intro fi hfi
-        obtain ⟨var, hvar, hname⟩ := MF.covered fi hfi
-        rcases List.mem_append.1 hvar with hvA | hvE
-        · exact hfactoryA PT hA fi hfi var hvA hname
-        · rw [hEV] at hvE; simp only [List.mem_singleton] at hvE; subst hvE
-          obtain ⟨hfind', hi', _⟩ := field_of_var hfa MF.fieldNodup hfi hname
-          rw [hf0] at hfind'; cases hfind'
-          exact ⟨hi', by rw [← hname]; exact hT⟩
-      have hxnA : xsiNilOf (attrPairsN cfg mp.attributeVars fields) = none := by
-        simpa [nilAttr] using xsiNilOf_append (attrPairsN cfg mp.attributeVars fields)
-          (fun kv hkv => (hAkeys kv hkv).1) false
-      have hBindA0 : bindAttrs e pcfg mp (attrPairsN cfg mp.attributeVars fields) M =
-          .ok (attrParamsN cfg mp.attributeVars fields, 0) := by simpa [nilAttr] using hBindA false
-      -- the typed text value
-      unfold FN.textValOK at hTX
-      cases hpt : primTypeOf tv with
-      | none => simp [hpt] at hTX
-      | some t =>
-        obtain ⟨hty, _⟩ := primTypeOf_some hpt
-        simp only [hpt] at hTX hkind
-        -- three kinds of content: no data (with or without `xsi:nil`), data
-        by_cases htok : tv.tokens = true
-        · -- a token list
-          simp only [htok, if_true, Bool.and_eq_true, Bool.or_eq_true, Bool.not_eq_true',
-            decide_eq_true_eq] at hTX hkind
-          obtain ⟨ys, hlook, hys⟩ := toks_of hTX.1
+      obtain ⟨f0, hf0, hfi0, hd0⟩ := fieldAgreesN_iff.1 hfaN
+      have hf0mem : f0 ∈ ci.fields := List.mem_of_find?_eq_some hf0
+      have hf0name : f0.name = tv.name := by have := List.find?_some hf0; simpa using this
+      cases hinit : tv.init with
+      | false =>
+        -- a fixed text: the value is the default, the parser only validates it
+        have hfo : fixedOK tv = true := by
+          simp only [Bool.or_eq_true] at hfix
+          rcases hfix with h | h
+          · rw [hinit] at h; cases h
+          · exact h
+        simp only [fixedOK, Bool.and_eq_true, Bool.not_eq_true'] at hfo
+        have htok' : tv.tokens = false := hfo.1.1.1.1.1
+        unfold FN.textValOK at hTX
+        simp only [Bool.and_eq_true, Bool.or_eq_true] at hTX
+        obtain ⟨hfx, hTX⟩ := hTX
+        obtain ⟨p, hlook, hdef⟩ := fixedVal_iff.1 (by
+          rcases hfx with h | h
+          · rw [hinit] at h; cases h
+          · exact h)
+        cases hpt : primTypeOf tv with
+        | none => simp [hpt] at hTX
+        | some t =>
+          obtain ⟨hty, _⟩ := primTypeOf_some hpt
+          simp only [hpt, htok', Bool.false_eq_true, if_false, hlook, Bool.and_eq_true] at hTX
+          have hpt' : primHasType p t = true := hTX.1
+          have hin : tv.name ∈ fields.map (·.1) := by rw [hnames]; exact mem_names_of_find hf0
+          have hNVe : nextValue mp fields = .ok (emitOfN tv (look fields tv.name)) := by
+            rw [nextValue_N mp fields (fun var hv => by
+              rw [hEV] at hv; simp only [List.mem_singleton] at hv; subst hv
+              exact ⟨hseq, hin⟩), hEV]
+            simp
+          have hK : parseKids e Γ pcfg mp {} none [] =
+              .ok (⟨([] : List (XmlVar × Val)).map (fun en => (some en.1.qname, en.2)), 0⟩, {}) := by
+            simp [parseKids]
+          have hWs0 : WsOK ({} : ElState).wrappers [] := trivial
+          have hxnA : xsiNilOf (attrPairsN cfg mp.attributeVars fields) = none := by
+            simpa [nilAttr] using xsiNilOf_append (attrPairsN cfg mp.attributeVars fields)
+              (fun kv hkv => (hAkeys kv hkv).1) false
+          have hBindA0 : bindAttrs e pcfg mp (attrPairsN cfg mp.attributeVars fields) M =
+              .ok (attrParamsN cfg mp.attributeVars fields, 0) := by
+            simpa [nilAttr] using hBindA false (fun h => by cases h)
+          have hF : classFactory Γ mp.clazz (attrParamsN cfg mp.attributeVars fields) = .ok (.obj cls fields) := by
+            rw [hclazz]
+            apply classFactory_N Γ hfind fields _ hnames MF.fieldNodup
+            intro fi hfi
+            obtain ⟨var, hvar, hname⟩ := MF.covered fi hfi
+            rcases List.mem_append.1 hvar with hvA | hvE
+            · exact hfactoryA _ hPA fi hfi var hvA hname
+            · rw [hEV] at hvE; simp only [List.mem_singleton] at hvE; subst hvE
+              obtain ⟨_, hi', hd'⟩ := field_of_varN hfaN MF.fieldNodup hfi hname
+              rw [hdef] at hd'
+              exact Or.inr ⟨by rw [hi', hinit], by rw [← hname, hlook, defaultAgrees_val hd']⟩
           obtain ⟨f', rfl⟩ : ∃ f', f = f' + 1 := ⟨f - 1, by omega⟩
           have hgen := genField_textN e Γ cfg f' (targetUri q) hmixed hisText hwrap
-            (encodePrimitive_toks hys)
-          have hdef : f0.default = some (.list []) := by
-            obtain ⟨_, _, hd⟩ := field_of_var hfa MF.fieldNodup (List.mem_of_find?_eq_some hf0)
-              (by have := List.find?_some hf0; simp only [decide_eq_true_eq] at this; exact this.symm)
-            rw [hkind.2] at hd
-            exact defaultAgrees_list hd
-          cases ys with
-          | nil =>
-            -- no character data; `xsi:nil` is excluded by `textValOK`
-            have hN : (nl || mp.nillable) = false := by
-              rcases hTX.2 with h | h
-              · exact h
-              · simp [hlook, Val.truthy] at h
-            have hT : bindText e pcfg mp (xsiNilOf (attrPairsN cfg mp.attributeVars fields)) M
-                (bindEntries (attrParamsN cfg mp.attributeVars fields) []) none =
-                .ok (false, attrParamsN cfg mp.attributeVars fields, 0) := by
-              simp [bindText, htext, bindEntries, hxnA]
-            have hF := hFgen (attrParamsN cfg mp.attributeVars fields) hPA
-              (Or.inr ⟨hPAtv, by rw [hlook]; exact hdef⟩)
-            have hparse := parseNode_element_N e Γ pcfg mp q (attrPairsN cfg mp.attributeVars fields) M
-              none [] [] {} _ _ false (.obj cls fields) MF.choices MF.wild
-              (fun h => by rw [hxnA] at h; cases h) hK (fun _ h => by cases h) hWs0 hBindA0 hT hF
-            have hsubw := SubW_elem_dataN (M := M) (isDt := isDatatype Γ) q
-              (attrEvsN cfg mp.attributeVars fields ++ nilEvs (nl || mp.nillable))
-              (attrPairsN cfg mp.attributeVars fields) (nl || mp.nillable) (tokData []) none rfl
-              (hAW _) (fun kv hkv => (hAkeys kv hkv).1)
-            refine ⟨[Ev.start q] ++ (attrEvsN cfg mp.attributeVars fields ++ nilEvs (nl || mp.nillable)) ++
-                [Ev.data (tokData [])] ++ [Ev.end q],
-              attrPairsN cfg mp.attributeVars fields, none, [], ?_, ?_, ?_, ?_,
-              fun kv hkv => (hAkeys kv hkv).2, Or.inl hxnA, ?_⟩
-            · simp [hNVe, hlook, emitOfN, hgen, bind, Except.bind, pure, Except.pure]
-            · simp [hlook, textHasData, hN, nilAttr, textTextN, optText, joinTok, tokStrs, List.intercalate]
-            · simpa [hlook, textHasData, hN, nilAttr, textTextN, optText, joinTok, tokStrs,
-                List.intercalate, treeSax, treesSax, dataSax] using hsubw
-            · simp [plain, plainList]
-            · simpa [hlook, textHasData, hN, nilAttr, textTextN, optText, joinTok, tokStrs,
-                List.intercalate] using hparse
-          | cons a l =>
-            have hpv := parseVar_toks e pcfg tv.toVarCore M htok hty hys
-            have hjoin : optText (joinTok (a :: l)) = some (joinTok (a :: l)) := by
-              simp [optText, joinTok_ne_nil hys]
-            have hT : bindText e pcfg mp (xsiNilOf (attrPairsN cfg mp.attributeVars fields)) M
-                (bindEntries (attrParamsN cfg mp.attributeVars fields) []) (some (joinTok (a :: l))) =
-                .ok (true, (attrParamsN cfg mp.attributeVars fields).set tv.name (.list (a :: l)), 0) := by
-              simp [bindText, htext, bindEntries, hxnA, hpv, hinit, bind, Except.bind, pure, Except.pure]
-            have hF := hFgen ((attrParamsN cfg mp.attributeVars fields).set tv.name (.list (a :: l)))
-              (fun var hv => by
-                rw [Params.get_set_ne _ _ (fun h => htvA (List.mem_map.2 ⟨var, hv, h⟩))]
-                exact hPA var hv)
-              (Or.inl (by rw [Params.get_set_self, hlook]))
-            have hparse := parseNode_element_N e Γ pcfg mp q (attrPairsN cfg mp.attributeVars fields) M
-              (some (joinTok (a :: l))) [] [] {} _ _ true (.obj cls fields) MF.choices MF.wild
-              (fun h => by rw [hxnA] at h; cases h) hK (fun _ h => by cases h) hWs0 hBindA0 hT hF
-            have hsubw := SubW_elem_dataN (M := M) (isDt := isDatatype Γ) q
-              (attrEvsN cfg mp.attributeVars fields ++ nilEvs (nl || mp.nillable))
-              (attrPairsN cfg mp.attributeVars fields) (nl || mp.nillable) (tokData (a :: l)) _
-              (encodeData_toks M hys) (hAW _) (fun kv hkv => (hAkeys kv hkv).1)
-            refine ⟨[Ev.start q] ++ (attrEvsN cfg mp.attributeVars fields ++ nilEvs (nl || mp.nillable)) ++
-                [Ev.data (tokData (a :: l))] ++ [Ev.end q],
-              attrPairsN cfg mp.attributeVars fields, some (joinTok (a :: l)), [], ?_, ?_, ?_, ?_,
-              fun kv hkv => (hAkeys kv hkv).2, Or.inl hxnA, ?_⟩
-            · simp [hNVe, hlook, emitOfN, hgen, bind, Except.bind, pure, Except.pure]
-            · simp [hlook, textHasData, textTextN, hjoin]
-            · have := treeSax_optText M q (attrPairsN cfg mp.attributeVars fields) (joinTok (a :: l))
-              rw [hjoin] at this
-              simpa [hlook, textHasData, textTextN, hjoin, this] using hsubw
-            · simp [plain, plainList]
-            · simpa [hlook, textHasData, textTextN, hjoin] using hparse
-        · have htok' : tv.tokens = false := by simpa using htok
-          simp only [htok', Bool.false_eq_true, if_false] at hTX hkind
-          split at hTX
-          · -- the text is `None`
-            rename_i hlook
-            simp only [hlook, textHasData, Bool.or_false, Bool.or_eq_true, Bool.not_eq_true'] at hcontent hTX
-            have hxn := xsiNilOf_append (attrPairsN cfg mp.attributeVars fields)
-              (fun kv hkv => (hAkeys kv hkv).1) (nl || mp.nillable)
-            have hT : bindText e pcfg mp
-                (xsiNilOf (attrPairsN cfg mp.attributeVars fields ++ nilAttr (nl || mp.nillable))) M
-                (bindEntries (attrParamsN cfg mp.attributeVars fields) []) none =
-                .ok ((nl || mp.nillable),
-                  if (nl || mp.nillable) then (attrParamsN cfg mp.attributeVars fields).set tv.name .none
-                  else attrParamsN cfg mp.attributeVars fields, 0) := by
-              rw [hxn]
-              cases hN : (nl || mp.nillable) <;>
-                simp [bindText, htext, bindEntries, hinit, bind, Except.bind, pure, Except.pure]
-            have hF : classFactory Γ mp.clazz
-                (if (nl || mp.nillable) then (attrParamsN cfg mp.attributeVars fields).set tv.name .none
-                  else attrParamsN cfg mp.attributeVars fields) = .ok (.obj cls fields) := by
-              cases hN : (nl || mp.nillable) with
-              | true =>
-                simp only [if_true]
-                exact hFgen _ (fun var hv => by
-                    rw [Params.get_set_ne _ _ (fun h => htvA (List.mem_map.2 ⟨var, hv, h⟩))]
-                    exact hPA var hv)
-                  (Or.inl (by rw [Params.get_set_self, hlook]))
-              | false =>
-                simp only [Bool.false_eq_true, if_false]
-                have hfd : fdNone ci tv.name = true := by
-                  rcases hTX with h | h
-                  · simp only [Bool.or_eq_false_iff] at hN
-                    rcases h with h | h
-                    · rw [hN.1] at h; cases h
-                    · rw [hN.2] at h; cases h
-                  · exact h
-                obtain ⟨f', hf', hdn⟩ := fdNone_iff.1 hfd
-                rw [hf0] at hf'; cases hf'
-                exact hFgen _ hPA (Or.inr ⟨hPAtv, by rw [hlook, hdn]⟩)
-            have hparse := parseNode_element_N e Γ pcfg mp q
-              (attrPairsN cfg mp.attributeVars fields ++ nilAttr (nl || mp.nillable)) M none [] [] {} _ _ _
-              (.obj cls fields) MF.choices MF.wild
-              (fun h => by
-                rw [hxn] at h
-                cases hN : (nl || mp.nillable) with
-                | false => simp [hN] at h
-                | true =>
-                  rcases hcontent with h' | h'
-                  · simpa [h'] using hN
-                  · exact h')
-              hK (fun _ h => by cases h) hWs0 (hBindA _) hT hF
-            have hsubw := SubW_elemN (M := M) (isDt := isDatatype Γ) q
-              (attrEvsN cfg mp.attributeVars fields ++ nilEvs (nl || mp.nillable))
-              (attrPairsN cfg mp.attributeVars fields) (nl || mp.nillable) [] []
-              (hAW _) (fun kv hkv => (hAkeys kv hkv).1) (BodyW_nil M _)
-            refine ⟨[Ev.start q] ++ (attrEvsN cfg mp.attributeVars fields ++ nilEvs (nl || mp.nillable)) ++
-                [] ++ [Ev.end q],
-              attrPairsN cfg mp.attributeVars fields ++ nilAttr (nl || mp.nillable), none, [], ?_, ?_, ?_,
-              ?_, noType_append _ (fun kv hkv => (hAkeys kv hkv).2) (nl || mp.nillable), ?_, ?_⟩
-            · simp [hNVe, hlook, emitOfN, hnillable, bind, Except.bind, pure, Except.pure]
-            · simp [hlook, textHasData, textTextN]
-            · simpa [hlook, textHasData, textTextN, treeSax, treesSax] using hsubw
-            · simp [plain, plainList]
-            · rw [hxn]
-              cases hN : (nl || mp.nillable) with
-              | false => exact Or.inl (by simp)
-              | true => exact Or.inr ⟨by simp, rfl⟩
-            · simpa [hlook, textHasData, textTextN] using hparse
-          · -- the text is a primitive
-            rename_i p hlook
-            simp only [Bool.and_eq_true, Bool.or_eq_true, decide_eq_true_eq] at hTX
-            obtain ⟨hpt', hemp⟩ := hTX
+            (encodePrimitive_prim hpt')
+          have hT : ∃ bt, bindText e pcfg mp (xsiNilOf (attrPairsN cfg mp.attributeVars fields)) M
+              (bindEntries (attrParamsN cfg mp.attributeVars fields) []) (optText (serPrim p)) =
+              .ok (bt, attrParamsN cfg mp.attributeVars fields, 0) := by
+            by_cases hs : serPrim p = []
+            · exact ⟨false, by simp [bindText, htext, bindEntries, optText, hs, hxnA]⟩
+            · have hpv := parseVar_serPrim e pcfg tv.toVarCore p t M htok' hty hpt'
+              have hvf := validateFixed_same e.py tv.toVarCore p hdef
+              exact ⟨true, by simp [bindText, htext, bindEntries, optText, hs, hpv, hinit, hvf, hxnA,
+                bind, Except.bind, pure, Except.pure]⟩
+          obtain ⟨bt, hT⟩ := hT
+          have hparse := parseNode_element_N e Γ pcfg mp q _ M _ [] [] {} _ _ bt (.obj cls fields)
+            MF.choices MF.wild (fun h => by rw [hxnA] at h; cases h) hK (fun _ h => by cases h)
+            hWs0 hBindA0 hT hF
+          have hsubw := SubW_elem_dataN (M := M) (isDt := isDatatype Γ) q
+            (attrEvsN cfg mp.attributeVars fields ++ nilEvs (nl || mp.nillable))
+            (attrPairsN cfg mp.attributeVars fields) (nl || mp.nillable) (.prim (.str (serPrim p)))
+            (some (serPrim p)) rfl (hAW _) (fun kv hkv => (hAkeys kv hkv).1)
+          refine ⟨[Ev.start q] ++ (attrEvsN cfg mp.attributeVars fields ++ nilEvs (nl || mp.nillable)) ++
+              [Ev.data (.prim (.str (serPrim p)))] ++ [Ev.end q],
+            attrPairsN cfg mp.attributeVars fields, optText (serPrim p), [], ?_, ?_, ?_, ?_,
+            fun kv hkv => (hAkeys kv hkv).2, Or.inl hxnA, ?_⟩
+          · simp [hNVe, hlook, emitOfN, hgen, bind, Except.bind, pure, Except.pure]
+          · simp [hlook, textHasData, textTextN]
+          · simpa [hlook, textHasData, textTextN, treeSax_optText] using hsubw
+          · simp [plain, plainList]
+          · simpa [hlook, textHasData, textTextN] using hparse
+      | true =>
+        have hfa : fieldAgrees ci tv = true := fieldAgrees_of_N hfaN hinit
+        have hin : tv.name ∈ fields.map (·.1) := by rw [hnames]; exact mem_names_of_find hf0
+        have htvE : tv ∈ mp.elementVars := by rw [hEV]; simp
+        have hNVe : nextValue mp fields = .ok (emitOfN tv (look fields tv.name)) := by
+          rw [nextValue_N mp fields (fun var hv => by
+            rw [hEV] at hv; simp only [List.mem_singleton] at hv; subst hv
+            exact ⟨hseq, hin⟩), hEV]
+          simp
+        have hK : parseKids e Γ pcfg mp {} none [] =
+            .ok (⟨([] : List (XmlVar × Val)).map (fun en => (some en.1.qname, en.2)), 0⟩, {}) := by
+          simp [parseKids]
+        have hWs0 : WsOK ({} : ElState).wrappers [] := trivial
+        have htvA : tv.name ∉ mp.attributeVars.map (·.name) := by
+          intro hmem
+          obtain ⟨a, ha, han⟩ := List.mem_map.1 hmem
+          exact hAE a ha tv htvE han
+        have hPAtv := attrParamsN_get_none cfg fields mp.attributeVars htvA
+        -- the constructor call, for any final params
+        have hFgen : ∀ PT : Params,
+            (∀ var ∈ mp.attributeVars,
+              PT.get var.name = (attrParamOf cfg fields var).map (·.2)) →
+            (PT.get tv.name = some (look fields tv.name) ∨
+              (PT.get tv.name = none ∧ f0.default = some (look fields tv.name))) →
+            classFactory Γ mp.clazz PT = .ok (.obj cls fields) := by
+          intro PT hA hT
+          rw [hclazz]
+          apply classFactory_N Γ hfind fields _ hnames MF.fieldNodup
+          intro fi hfi
+          obtain ⟨var, hvar, hname⟩ := MF.covered fi hfi
+          rcases List.mem_append.1 hvar with hvA | hvE
+          · exact hfactoryA PT hA fi hfi var hvA hname
+          · rw [hEV] at hvE; simp only [List.mem_singleton] at hvE; subst hvE
+            obtain ⟨hfind', hi', _⟩ := field_of_var hfa MF.fieldNodup hfi hname
+            rw [hf0] at hfind'; cases hfind'
+            exact Or.inl ⟨hi', by rw [← hname]; exact hT⟩
+        have hxnA : xsiNilOf (attrPairsN cfg mp.attributeVars fields) = none := by
+          simpa [nilAttr] using xsiNilOf_append (attrPairsN cfg mp.attributeVars fields)
+            (fun kv hkv => (hAkeys kv hkv).1) false
+        have hBindA0 : bindAttrs e pcfg mp (attrPairsN cfg mp.attributeVars fields) M =
+            .ok (attrParamsN cfg mp.attributeVars fields, 0) := by
+          simpa [nilAttr] using hBindA false (fun h => by cases h)
+        -- the typed text value
+        unfold FN.textValOK at hTX
+        rw [Bool.and_eq_true] at hTX
+        replace hTX := hTX.2
+        cases hpt : primTypeOf tv with
+        | none => simp [hpt] at hTX
+        | some t =>
+          obtain ⟨hty, _⟩ := primTypeOf_some hpt
+          simp only [hpt] at hTX hkind
+          -- three kinds of content: no data (with or without `xsi:nil`), data
+          by_cases htok : tv.tokens = true
+          · -- a token list
+            simp only [htok, if_true, Bool.and_eq_true, Bool.or_eq_true, Bool.not_eq_true',
+              decide_eq_true_eq] at hTX hkind
+            obtain ⟨ys, hlook, hys⟩ := toks_of hTX.1
             obtain ⟨f', rfl⟩ : ∃ f', f = f' + 1 := ⟨f - 1, by omega⟩
             have hgen := genField_textN e Γ cfg f' (targetUri q) hmixed hisText hwrap
-              (encodePrimitive_prim hpt')
-            have hparse : parseNode e Γ pcfg
-                (.element mp (attrPairsN cfg mp.attributeVars fields) M false none
-                  (xsiNilOf (attrPairsN cfg mp.attributeVars fields)))
-                (.node q (attrPairsN cfg mp.attributeVars fields) M (optText (serPrim p)) [] none) =
-                .ok ⟨[(some q, .obj cls fields)], 0⟩ := by
-              by_cases hs : serPrim p = []
-              · have hp := (serPrim_eq_nil hpt').1 hs
-                have hT : bindText e pcfg mp (xsiNilOf (attrPairsN cfg mp.attributeVars fields)) M
-                    (bindEntries (attrParamsN cfg mp.attributeVars fields) []) (optText (serPrim p)) =
-                    .ok (false, attrParamsN cfg mp.attributeVars fields, 0) := by
-                  simp [bindText, htext, bindEntries, optText, hs, hxnA]
-                have hF := hFgen (attrParamsN cfg mp.attributeVars fields) hPA (by
-                  rcases hemp with hemp | hemp
-                  · exact absurd hp hemp
-                  · obtain ⟨f'', hf'', hdn⟩ := fdEmptyStr_iff.1 hemp
-                    rw [hf0] at hf''; cases hf''
-                    exact Or.inr ⟨hPAtv, by rw [hlook, hdn, hp]⟩)
-                exact parseNode_element_N e Γ pcfg mp q _ M _ [] [] {} _ _ false (.obj cls fields)
-                  MF.choices MF.wild (fun h => by rw [hxnA] at h; cases h) hK (fun _ h => by cases h)
-                  hWs0 hBindA0 hT hF
-              · have hpv := parseVar_serPrim e pcfg tv.toVarCore p t M htok' hty hpt'
-                have hT : bindText e pcfg mp (xsiNilOf (attrPairsN cfg mp.attributeVars fields)) M
-                    (bindEntries (attrParamsN cfg mp.attributeVars fields) []) (optText (serPrim p)) =
-                    .ok (true, (attrParamsN cfg mp.attributeVars fields).set tv.name (.prim p), 0) := by
-                  simp [bindText, htext, bindEntries, optText, hs, hpv, hinit, hxnA, bind, Except.bind,
-                    pure, Except.pure]
-                have hF := hFgen ((attrParamsN cfg mp.attributeVars fields).set tv.name (.prim p))
-                  (fun var hv => by
-                    rw [Params.get_set_ne _ _ (fun h => htvA (List.mem_map.2 ⟨var, hv, h⟩))]
-                    exact hPA var hv)
-                  (Or.inl (by rw [Params.get_set_self, hlook]))
-                exact parseNode_element_N e Γ pcfg mp q _ M _ [] [] {} _ _ true (.obj cls fields)
-                  MF.choices MF.wild (fun h => by rw [hxnA] at h; cases h) hK (fun _ h => by cases h)
-                  hWs0 hBindA0 hT hF
-            have hsubw := SubW_elem_dataN (M := M) (isDt := isDatatype Γ) q
-              (attrEvsN cfg mp.attributeVars fields ++ nilEvs (nl || mp.nillable))
-              (attrPairsN cfg mp.attributeVars fields) (nl || mp.nillable) (.prim (.str (serPrim p)))
-              (some (serPrim p)) rfl (hAW _) (fun kv hkv => (hAkeys kv hkv).1)
-            refine ⟨[Ev.start q] ++ (attrEvsN cfg mp.attributeVars fields ++ nilEvs (nl || mp.nillable)) ++
-                [Ev.data (.prim (.str (serPrim p)))] ++ [Ev.end q],
-              attrPairsN cfg mp.attributeVars fields, optText (serPrim p), [], ?_, ?_, ?_, ?_,
-              fun kv hkv => (hAkeys kv hkv).2, Or.inl hxnA, ?_⟩
-            · simp [hNVe, hlook, emitOfN, hgen, bind, Except.bind, pure, Except.pure]
-            · simp [hlook, textHasData, textTextN]
-            · simpa [hlook, textHasData, textTextN, treeSax_optText] using hsubw
-            · simp [plain, plainList]
-            · simpa [hlook, textHasData, textTextN] using hparse
-          · cases hTX
+              (encodePrimitive_toks hys)
+            have hdef : f0.default = some (.list []) := by
+              obtain ⟨_, _, hd⟩ := field_of_var hfa MF.fieldNodup (List.mem_of_find?_eq_some hf0)
+                (by have := List.find?_some hf0; simp only [decide_eq_true_eq] at this; exact this.symm)
+              rw [hkind.2] at hd
+              exact defaultAgrees_list hd
+            cases ys with
+            | nil =>
+              -- no character data; `xsi:nil` is excluded by `textValOK`
+              have hN : (nl || mp.nillable) = false := by
+                rcases hTX.2 with h | h
+                · exact h
+                · simp [hlook, Val.truthy] at h
+              have hT : bindText e pcfg mp (xsiNilOf (attrPairsN cfg mp.attributeVars fields)) M
+                  (bindEntries (attrParamsN cfg mp.attributeVars fields) []) none =
+                  .ok (false, attrParamsN cfg mp.attributeVars fields, 0) := by
+                simp [bindText, htext, bindEntries, hxnA]
+              have hF := hFgen (attrParamsN cfg mp.attributeVars fields) hPA
+                (Or.inr ⟨hPAtv, by rw [hlook]; exact hdef⟩)
+              have hparse := parseNode_element_N e Γ pcfg mp q (attrPairsN cfg mp.attributeVars fields) M
+                none [] [] {} _ _ false (.obj cls fields) MF.choices MF.wild
+                (fun h => by rw [hxnA] at h; cases h) hK (fun _ h => by cases h) hWs0 hBindA0 hT hF
+              have hsubw := SubW_elem_dataN (M := M) (isDt := isDatatype Γ) q
+                (attrEvsN cfg mp.attributeVars fields ++ nilEvs (nl || mp.nillable))
+                (attrPairsN cfg mp.attributeVars fields) (nl || mp.nillable) (tokData []) none rfl
+                (hAW _) (fun kv hkv => (hAkeys kv hkv).1)
+              refine ⟨[Ev.start q] ++ (attrEvsN cfg mp.attributeVars fields ++ nilEvs (nl || mp.nillable)) ++
+                  [Ev.data (tokData [])] ++ [Ev.end q],
+                attrPairsN cfg mp.attributeVars fields, none, [], ?_, ?_, ?_, ?_,
+                fun kv hkv => (hAkeys kv hkv).2, Or.inl hxnA, ?_⟩
+              · simp [hNVe, hlook, emitOfN, hgen, bind, Except.bind, pure, Except.pure]
+              · simp [hlook, textHasData, hN, nilAttr, textTextN, optText, joinTok, tokStrs, List.intercalate]
+              · simpa [hlook, textHasData, hN, nilAttr, textTextN, optText, joinTok, tokStrs,
+                  List.intercalate, treeSax, treesSax, dataSax] using hsubw
+              · simp [plain, plainList]
+              · simpa [hlook, textHasData, hN, nilAttr, textTextN, optText, joinTok, tokStrs,
+                  List.intercalate] using hparse
+            | cons a l =>
+              have hpv := parseVar_toks e pcfg tv.toVarCore M htok hty hys
+              have hjoin : optText (joinTok (a :: l)) = some (joinTok (a :: l)) := by
+                simp [optText, joinTok_ne_nil hys]
+              have hT : bindText e pcfg mp (xsiNilOf (attrPairsN cfg mp.attributeVars fields)) M
+                  (bindEntries (attrParamsN cfg mp.attributeVars fields) []) (some (joinTok (a :: l))) =
+                  .ok (true, (attrParamsN cfg mp.attributeVars fields).set tv.name (.list (a :: l)), 0) := by
+                simp [bindText, htext, bindEntries, hxnA, hpv, hinit, bind, Except.bind, pure, Except.pure]
+              have hF := hFgen ((attrParamsN cfg mp.attributeVars fields).set tv.name (.list (a :: l)))
+                (fun var hv => by
+                  rw [Params.get_set_ne _ _ (fun h => htvA (List.mem_map.2 ⟨var, hv, h⟩))]
+                  exact hPA var hv)
+                (Or.inl (by rw [Params.get_set_self, hlook]))
+              have hparse := parseNode_element_N e Γ pcfg mp q (attrPairsN cfg mp.attributeVars fields) M
+                (some (joinTok (a :: l))) [] [] {} _ _ true (.obj cls fields) MF.choices MF.wild
+                (fun h => by rw [hxnA] at h; cases h) hK (fun _ h => by cases h) hWs0 hBindA0 hT hF
+              have hsubw := SubW_elem_dataN (M := M) (isDt := isDatatype Γ) q
+                (attrEvsN cfg mp.attributeVars fields ++ nilEvs (nl || mp.nillable))
+                (attrPairsN cfg mp.attributeVars fields) (nl || mp.nillable) (tokData (a :: l)) _
+                (encodeData_toks M hys) (hAW _) (fun kv hkv => (hAkeys kv hkv).1)
+              refine ⟨[Ev.start q] ++ (attrEvsN cfg mp.attributeVars fields ++ nilEvs (nl || mp.nillable)) ++
+                  [Ev.data (tokData (a :: l))] ++ [Ev.end q],
+                attrPairsN cfg mp.attributeVars fields, some (joinTok (a :: l)), [], ?_, ?_, ?_, ?_,
+                fun kv hkv => (hAkeys kv hkv).2, Or.inl hxnA, ?_⟩
+              · simp [hNVe, hlook, emitOfN, hgen, bind, Except.bind, pure, Except.pure]
+              · simp [hlook, textHasData, textTextN, hjoin]
+              · have := treeSax_optText M q (attrPairsN cfg mp.attributeVars fields) (joinTok (a :: l))
+                rw [hjoin] at this
+                simpa [hlook, textHasData, textTextN, hjoin, this] using hsubw
+              · simp [plain, plainList]
+              · simpa [hlook, textHasData, textTextN, hjoin] using hparse
+          · have htok' : tv.tokens = false := by simpa using htok
+            simp only [htok', Bool.false_eq_true, if_false] at hTX hkind
+            split at hTX
+            · -- the text is `None`
+              rename_i hlook
+              have hnc : needContent nl mp = false := by
+                simpa [hlook, textHasData] using hcontent
+              simp only [hlook, Bool.or_eq_true] at hTX
+              have hxn := xsiNilOf_append (attrPairsN cfg mp.attributeVars fields)
+                (fun kv hkv => (hAkeys kv hkv).1) (nl || mp.nillable)
+              have hT : bindText e pcfg mp
+                  (xsiNilOf (attrPairsN cfg mp.attributeVars fields ++ nilAttr (nl || mp.nillable))) M
+                  (bindEntries (attrParamsN cfg mp.attributeVars fields) []) none =
+                  .ok ((nl || mp.nillable),
+                    if (nl || mp.nillable) then (attrParamsN cfg mp.attributeVars fields).set tv.name .none
+                    else attrParamsN cfg mp.attributeVars fields, 0) := by
+                rw [hxn]
+                cases hN : (nl || mp.nillable) <;>
+                  simp [bindText, htext, bindEntries, hinit, bind, Except.bind, pure, Except.pure]
+              have hF : classFactory Γ mp.clazz
+                  (if (nl || mp.nillable) then (attrParamsN cfg mp.attributeVars fields).set tv.name .none
+                    else attrParamsN cfg mp.attributeVars fields) = .ok (.obj cls fields) := by
+                cases hN : (nl || mp.nillable) with
+                | true =>
+                  simp only [if_true]
+                  exact hFgen _ (fun var hv => by
+                      rw [Params.get_set_ne _ _ (fun h => htvA (List.mem_map.2 ⟨var, hv, h⟩))]
+                      exact hPA var hv)
+                    (Or.inl (by rw [Params.get_set_self, hlook]))
+                | false =>
+                  simp only [Bool.false_eq_true, if_false]
+                  have hfd : fdNone ci tv.name = true := by
+                    rcases hTX with h | h
+                    · simp only [Bool.or_eq_false_iff] at hN
+                      rcases h with h | h
+                      · rw [hN.1] at h; cases h
+                      · rw [hN.2] at h; cases h
+                    · exact h
+                  obtain ⟨f', hf', hdn⟩ := fdNone_iff.1 hfd
+                  rw [hf0] at hf'; cases hf'
+                  exact hFgen _ hPA (Or.inr ⟨hPAtv, by rw [hlook, hdn]⟩)
+              have hparse := parseNode_element_N e Γ pcfg mp q
+                (attrPairsN cfg mp.attributeVars fields ++ nilAttr (nl || mp.nillable)) M none [] [] {} _ _ _
+                (.obj cls fields) MF.choices MF.wild
+                (fun h => by
+                  rw [hxn] at h
+                  cases hN : (nl || mp.nillable) with
+                  | false => simp [hN] at h
+                  | true => exact (hneed hnc hN).1)
+                hK (fun _ h => by cases h) hWs0 (hBindA _ (fun hN => (hneed hnc hN).2)) hT hF
+              have hsubw := SubW_elemN (M := M) (isDt := isDatatype Γ) q
+                (attrEvsN cfg mp.attributeVars fields ++ nilEvs (nl || mp.nillable))
+                (attrPairsN cfg mp.attributeVars fields) (nl || mp.nillable) [] []
+                (hAW _) (fun kv hkv => (hAkeys kv hkv).1) (BodyW_nil M _)
+              refine ⟨[Ev.start q] ++ (attrEvsN cfg mp.attributeVars fields ++ nilEvs (nl || mp.nillable)) ++
+                  [] ++ [Ev.end q],
+                attrPairsN cfg mp.attributeVars fields ++ nilAttr (nl || mp.nillable), none, [], ?_, ?_, ?_,
+                ?_, noType_append _ (fun kv hkv => (hAkeys kv hkv).2) (nl || mp.nillable), ?_, ?_⟩
+              · simp [hNVe, hlook, emitOfN, hnillable, bind, Except.bind, pure, Except.pure]
+              · simp [hlook, textHasData, textTextN]
+              · simpa [hlook, textHasData, textTextN, treeSax, treesSax] using hsubw
+              · simp [plain, plainList]
+              · rw [hxn]
+                cases hN : (nl || mp.nillable) with
+                | false => exact Or.inl (by simp)
+                | true => exact Or.inr ⟨by simp, rfl⟩
+              · simpa [hlook, textHasData, textTextN] using hparse
+            · -- the text is a primitive
+              rename_i p hlook
+              simp only [Bool.and_eq_true, Bool.or_eq_true, decide_eq_true_eq] at hTX
+              obtain ⟨hpt', hemp⟩ := hTX
+              obtain ⟨f', rfl⟩ : ∃ f', f = f' + 1 := ⟨f - 1, by omega⟩
+              have hgen := genField_textN e Γ cfg f' (targetUri q) hmixed hisText hwrap
+                (encodePrimitive_prim hpt')
+              have hparse : parseNode e Γ pcfg
+                  (.element mp (attrPairsN cfg mp.attributeVars fields) M false none
+                    (xsiNilOf (attrPairsN cfg mp.attributeVars fields)))
+                  (.node q (attrPairsN cfg mp.attributeVars fields) M (optText (serPrim p)) [] none) =
+                  .ok ⟨[(some q, .obj cls fields)], 0⟩ := by
+                by_cases hs : serPrim p = []
+                · have hp := (serPrim_eq_nil hpt').1 hs
+                  have hT : bindText e pcfg mp (xsiNilOf (attrPairsN cfg mp.attributeVars fields)) M
+                      (bindEntries (attrParamsN cfg mp.attributeVars fields) []) (optText (serPrim p)) =
+                      .ok (false, attrParamsN cfg mp.attributeVars fields, 0) := by
+                    simp [bindText, htext, bindEntries, optText, hs, hxnA]
+                  have hF := hFgen (attrParamsN cfg mp.attributeVars fields) hPA (by
+                    rcases hemp with hemp | hemp
+                    · exact absurd hp hemp
+                    · obtain ⟨f'', hf'', hdn⟩ := fdEmptyStr_iff.1 hemp
+                      rw [hf0] at hf''; cases hf''
+                      exact Or.inr ⟨hPAtv, by rw [hlook, hdn, hp]⟩)
+                  exact parseNode_element_N e Γ pcfg mp q _ M _ [] [] {} _ _ false (.obj cls fields)
+                    MF.choices MF.wild (fun h => by rw [hxnA] at h; cases h) hK (fun _ h => by cases h)
+                    hWs0 hBindA0 hT hF
+                · have hpv := parseVar_serPrim e pcfg tv.toVarCore p t M htok' hty hpt'
+                  have hT : bindText e pcfg mp (xsiNilOf (attrPairsN cfg mp.attributeVars fields)) M
+                      (bindEntries (attrParamsN cfg mp.attributeVars fields) []) (optText (serPrim p)) =
+                      .ok (true, (attrParamsN cfg mp.attributeVars fields).set tv.name (.prim p), 0) := by
+                    simp [bindText, htext, bindEntries, optText, hs, hpv, hinit, hxnA, bind, Except.bind,
+                      pure, Except.pure]
+                  have hF := hFgen ((attrParamsN cfg mp.attributeVars fields).set tv.name (.prim p))
+                    (fun var hv => by
+                      rw [Params.get_set_ne _ _ (fun h => htvA (List.mem_map.2 ⟨var, hv, h⟩))]
+                      exact hPA var hv)
+                    (Or.inl (by rw [Params.get_set_self, hlook]))
+                  exact parseNode_element_N e Γ pcfg mp q _ M _ [] [] {} _ _ true (.obj cls fields)
+                    MF.choices MF.wild (fun h => by rw [hxnA] at h; cases h) hK (fun _ h => by cases h)
+                    hWs0 hBindA0 hT hF
+              have hsubw := SubW_elem_dataN (M := M) (isDt := isDatatype Γ) q
+                (attrEvsN cfg mp.attributeVars fields ++ nilEvs (nl || mp.nillable))
+                (attrPairsN cfg mp.attributeVars fields) (nl || mp.nillable) (.prim (.str (serPrim p)))
+                (some (serPrim p)) rfl (hAW _) (fun kv hkv => (hAkeys kv hkv).1)
+              refine ⟨[Ev.start q] ++ (attrEvsN cfg mp.attributeVars fields ++ nilEvs (nl || mp.nillable)) ++
+                  [Ev.data (.prim (.str (serPrim p)))] ++ [Ev.end q],
+                attrPairsN cfg mp.attributeVars fields, optText (serPrim p), [], ?_, ?_, ?_, ?_,
+                fun kv hkv => (hAkeys kv hkv).2, Or.inl hxnA, ?_⟩
+              · simp [hNVe, hlook, emitOfN, hgen, bind, Except.bind, pure, Except.pure]
+              · simp [hlook, textHasData, textTextN]
+              · simpa [hlook, textHasData, textTextN, treeSax_optText] using hsubw
+              · simp [plain, plainList]
+              · simpa [hlook, textHasData, textTextN] using hparse
+            · cases hTX
     | none =>
       dsimp only
       simp only [htext, Bool.and_eq_true, List.all_eq_true] at hbody
@@ -383,7 +556,7 @@ theorem main_stepN (ft : Feat) (e : BEnv) (Γ : Ctx) (cfg : SerCfg) (pcfg : Pars
         simpa [htext] using MF.body
       have hEF := fun var hv => elemFactsN_of MF hv (hEall var hv)
       have hin : ∀ var ∈ mp.elementVars, var.name ∈ fields.map (·.1) := fun var hv => by
-        obtain ⟨f', hf', _⟩ := fieldAgrees_iff.1 (hEF var hv).2.2.1
+        obtain ⟨f', hf', _, _⟩ := fieldAgreesN_iff.1 (hEF var hv).2.2.1
         rw [hnames]; exact mem_names_of_find hf'
       obtain ⟨f', rfl⟩ : ∃ f', f = f' + 1 := ⟨f - 1, by omega⟩
       -- per var: generator, writer and parser of its items
@@ -391,14 +564,18 @@ theorem main_stepN (ft : Feat) (e : BEnv) (Γ : Ctx) (cfg : SerCfg) (pcfg : Pars
           VarBundle e Γ cfg pcfg M mp ci (targetUri q) (treeNN Γ cfg M n (targetUri mp.qname)) f' var
             (look fields var.name) := by
         intro var hv
-        obtain ⟨hf, hk, _, _⟩ := hEF var hv
+        obtain ⟨hf, hk, _, _, hinitV⟩ := hEF var hv
         have hsz := size_le_sizeFields (look_mem (hin var hv))
         simp only at hsz
         cases hk with
         | prim t hc hp ht hd =>
-          exact prim_bundle e Γ cfg pcfg M _ _ hf MF.wild hc hp ht hd _ (hbodyE var hv) f' (by omega)
+          exact prim_bundle e Γ cfg pcfg M _ _ hf MF.wild hc hp ht hd hinitV _ (hbodyE var hv) f' (by omega)
         | cls c' m' hc htk ht hd hm hns' =>
-          exact cls_bundle e Γ cfg pcfg M n IH hf hc htk ht hd hm hns' q hns hv (hbodyE var hv) f'
+          have hinitC : var.init = true := by
+            rcases hinitV with h | h
+            · exact h
+            · simp [FN.fixedOK, hc] at h
+          exact cls_bundle e Γ cfg pcfg M n IH hf hc htk ht hd hm hns' q hns hv hinitC (hbodyE var hv) f'
             (by omega)
       -- `next_value`
       have hVS : ∀ var ∈ mp.elementVars, VarSeq fields var := fun var hv =>
@@ -462,11 +639,10 @@ theorem main_stepN (ft : Feat) (e : BEnv) (Γ : Ctx) (cfg : SerCfg) (pcfg : Pars
         · intro en hen en' hen' hqq
           rw [eq_of_nodup_qname MF.qnNodup (mem_entries hspec hEnames hen).1
             (mem_entries hspec hEnames hen').1 hqq]
-      have hinitE : ∀ en ∈ R.flatMap chunkEntries, en.1.init = true := fun en hen => (hentry en hen).1.init
       have hF : classFactory Γ mp.clazz (bindEntries (attrParamsN cfg mp.attributeVars fields)
           (R.flatMap chunkEntries)) = .ok (.obj cls fields) := by
         rw [hclazz]
-        apply classFactory_F1 Γ hfind fields _ hnames MF.fieldNodup
+        apply classFactory_N Γ hfind fields _ hnames MF.fieldNodup
         intro fi hfi
         obtain ⟨var, hvar, hname⟩ := MF.covered fi hfi
         rcases List.mem_append.1 hvar with hvA | hvE
@@ -477,10 +653,10 @@ theorem main_stepN (ft : Feat) (e : BEnv) (Γ : Ctx) (cfg : SerCfg) (pcfg : Pars
             intro en hen hk
             simp only [decide_eq_true_eq] at hk
             exact hAE w hw en.1 (mem_entries hspec hEnames hen).1 hk.symm
-          rw [get_bindEntries _ _ _ hinitE, hnone]
+          rw [get_bindEntries, hnone]
           exact hPA w hw
         · apply elem_field_okN (hEF var hvE).2.2.1 MF.fieldNodup hfi hname _ (hB var hvE).param
-          rw [get_bindEntries _ _ _ hinitE, entries_of_var hspec hEnames hvE, attrParamsN_get_none,
+          rw [get_bindEntries, entries_of_var hspec hEnames hvE, attrParamsN_get_none,
             foldl_accVar]
           intro hmem
           obtain ⟨a, ha, han⟩ := List.mem_map.1 hmem
@@ -492,12 +668,11 @@ theorem main_stepN (ft : Feat) (e : BEnv) (Γ : Ctx) (cfg : SerCfg) (pcfg : Pars
       -- `xsi:nil` is kept only without content, and then the class is nillable
       have hnilkept : (R.flatMap fun c =>
             chunkTrees M (itemTreeNN M (treeNN Γ cfg M n (targetUri mp.qname)) c.1) c.1 c.2) = [] →
-          (nl || mp.nillable) = true → mp.nillable = true := by
+          (nl || mp.nillable) = true → mp.nillable = true ∧ mp.anyAttributes = [] := by
         intro hk hN
         simp only [Bool.or_eq_true, Bool.not_eq_true', List.any_eq_true] at hcontent
-        rcases hcontent with (h | h) | ⟨var, hv, hem⟩
-        · simpa [h] using hN
-        · exact h
+        rcases hcontent with h | ⟨var, hv, hem⟩
+        · exact hneed h hN
         · exfalso
           have hne := emitsChild_items (hB var hv).shape hem
           have hsp := hspec.2 var.name
@@ -547,8 +722,8 @@ theorem main_stepN (ft : Feat) (e : BEnv) (Γ : Ctx) (cfg : SerCfg) (pcfg : Pars
             rw [hxn] at h
             cases hN : (nl || mp.nillable) with
             | false => simp [hN] at h
-            | true => exact hnilkept hk0 hN)
-          hK' (fun en hen => (hentry en hen).1) hWs (hBindA _) (hT _) hF
+            | true => exact (hnilkept hk0 hN).1)
+          hK' (fun en hen => (hentry en hen).1) hWs (hBindA _ (fun hN => (hnilkept hk0 hN).2)) (hT _) hF
         refine ⟨[Ev.start q] ++ (attrEvsN cfg mp.attributeVars fields ++ nilEvs (nl || mp.nillable)) ++
             body.flatten ++ [Ev.end q],
           attrPairsN cfg mp.attributeVars fields ++ nilAttr (nl || mp.nillable), none, kids, ?_,
@@ -570,7 +745,7 @@ theorem main_stepN (ft : Feat) (e : BEnv) (Γ : Ctx) (cfg : SerCfg) (pcfg : Pars
           (attrPairsN cfg mp.attributeVars fields) M none kids _ _ _ _
           false (.obj cls fields) MF.choices MF.wild
           (fun h => by rw [hxn] at h; cases h)
-          hK' (fun en hen => (hentry en hen).1) hWs (by simpa [nilAttr] using hBindA false) (hT _) hF
+          hK' (fun en hen => (hentry en hen).1) hWs (by simpa [nilAttr] using hBindA false (fun h => by cases h)) (hT _) hF
         refine ⟨[Ev.start q] ++ (attrEvsN cfg mp.attributeVars fields ++ nilEvs (nl || mp.nillable)) ++
             body.flatten ++ [Ev.end q], attrPairsN cfg mp.attributeVars fields, none, kids, ?_,
           by simp, ?_, ?_,
